@@ -4,6 +4,7 @@ import (
 	"encoding/json"
 	"fmt"
 	"strings"
+	"time"
 
 	"verif/internal/core"
 	"verif/internal/sched"
@@ -155,6 +156,13 @@ func serialJudge(env *core.Env, check string, sc sched.Scenario, claims bool) fu
 			if len(won) > 0 && (strings.Contains(sc.Name, "S_none") || strings.Contains(sc.Name, "nothing-ready")) {
 				return check + " kind=task-handed-out-although-nothing-is-ready", fmt.Sprintf("the store of this scenario has no ready task (and no command of the scenario makes one ready), yet: %v", desc)
 			}
+			if strings.Contains(sc.Name, "two-oldest-of-three") {
+				for id := range won {
+					if title(id) == "<C youngest>" {
+						return check + " kind=younger-task-handed-out-while-an-older-one-is-ready", fmt.Sprintf("three ready tasks, two claimers: the youngest was handed out: %v", desc)
+					}
+				}
+			}
 			for id, n := range won {
 				if n > 1 && !putBackIn(sc) {
 					return check + " kind=task-handed-to-two-claimants", fmt.Sprintf("%s returned to %d invocations: %v", title(id), n, desc)
@@ -278,6 +286,18 @@ func runC01(env *core.Env) {
 		l.State(d, "done")
 		one := core.Store{".ergo/plans.jsonl": l.Bytes(), ".ergo/lock": nil}
 		add("2-claimers/one-ready", one, claimReq("a1"), claimReq("a2", "--epic", b))
+	}
+	{
+		// three ready tasks created within one second, the oldest exactly on the second (its timestamp text is the
+		// shortest): two claimers must end up with the two oldest, whatever the ids are
+		l := newSynLog()
+		l.t = l.t.Truncate(time.Second).Add(5 * time.Second)
+		for k, tt := range []string{"A oldest", "B middle", "C youngest"} {
+			ts := l.t.Add(time.Duration(k) * 300 * time.Millisecond).Format(time.RFC3339Nano)
+			id := core.IDFor(int64(9833 - k)) // (ids in no particular relation to the creation order)
+			l.ev("new_task", ts, map[string]interface{}{"id": id, "uuid": "u-" + id, "epic_id": "", "state": "todo", "title": tt, "body": "", "created_at": ts})
+		}
+		add("2-claimers/two-oldest-of-three", core.Store{".ergo/plans.jsonl": l.Bytes(), ".ergo/lock": nil}, claimReq("a1"), claimReq("a2"))
 	}
 	if env.Thorough() {
 		add("4-claimers/S_A", f.SA, claimReq("a1"), claimReq("a2"), claimReq("a3"), claimReq("a4"))
